@@ -139,7 +139,9 @@ def gen_vs(r, idx, tier):
     if r.random() < 0.5:
         rlabels = []
         for _ in range(r.randint(0, 2)):
-            key = r.choice(["reg", "env", "host_1", "zz"]) if r.random() < 0.85 else r.choice(GOODL)   # sometimes clashes with a metric label
+            key = r.choice(["reg", "env", "host_1", "zz"]) if r.random() < 0.8 else r.choice(GOODL)
+            own = labels + [p[0] for p in ocon]
+            if own and r.random() < 0.2: key = r.choice(own)       # clashes with one of the metric's own labels: register refuses
             if key in [p[0] for p in rlabels]: continue
             rlabels.append((key, gens.label_value(r)))
     return dict(name=name, help=help_, ns=ns, sub=sub, ocon=ocon, maps=maps, cl=cl, lp=lp, labels=labels, vals=vals, buckets=buckets,
@@ -169,7 +171,7 @@ class C20(SeqProp):
     ]
 
     def gen(self, r, tier):
-        n = 40 if tier == "quick" else 220
+        n = 40 if tier == "quick" else 160
         return [gen_vs(r, i, tier) for i in range(n)]
 
     # -------------------------------------------------------------------------------- evaluation of value sets
@@ -263,6 +265,15 @@ class C20(SeqProp):
 
     # -------------------------------------------------------------------------------- the check
     def run(self, tier, seed, replay=None):
+        try:
+            return self._run(tier, seed, replay)
+        finally:
+            if REPO != "/repo":
+                # a run against a scratch copy must not leave that copy's arms behind as the committed default file
+                try: macro_arms.regenerate("/repo")
+                except Exception as e: print("[C20] could not restore coq/gen/MacroArms.v from /repo: %s" % e)
+
+    def _run(self, tier, seed, replay=None):
         t0 = time.time()
         pid = self.pid
         print("[%s] tier=%s seed=%d" % (pid, tier, seed))
